@@ -1,4 +1,4 @@
-(* c01f: uefi.Parse + Save of Intel flash images whose BIOS region holds FFS volumes:
+(* flashrun.ml: uefi.Parse + Save of Intel flash images whose BIOS region holds FFS volumes:
    [save_flash] (Model/FlashImage.v) over [save_region] (Model/Ffs.v) with ffsrun's oracles. *)
 open Model
 open Glue
@@ -43,14 +43,14 @@ let bios_save (b : z list) : z list outcome =
 let eval fn args : string option =
   Ffsrun.table_miss := false; Ffsrun.ucs_inexact := false;
   let r = match fn, args with
-    | "save", [img] ->
+    | "fsave", [img] ->
       let img = decode_img img in
       Some (match save_flash bios_save img with
           | Ok out -> Printf.sprintf "ok %x %s" (List.length out) (diff_obs img out)
           | Err _ -> "err"
           | Panic _ -> "panic"
           | Fuel -> "hang")
-    | "bios", [img] ->
+    | "fbios", [img] ->
       (* the bytes handed to NewBIOSRegion *)
       Some (match flash_bios_bytes (decode_img img) with
           | Some b -> Printf.sprintf "ok %x %x" (List.length b) (Ffsrun.fnv b)
@@ -61,4 +61,3 @@ let eval fn args : string option =
   | Some _ when !Ffsrun.ucs_inexact -> None
   | x -> x
 
-let () = run_file (fun fn args -> eval fn args) Sys.argv.(1)
